@@ -1,5 +1,5 @@
 (* C13 -- Parser modes differ only where documented.  Property theorems only. *)
-Require Import Base Token Tree Parser ParserSpec ModeProofs.
+Require Import Base Token Tree Parser ParserSpec Grammar GrammarModes ModeProofs GrammarModesProofs.
 Require Import Gen.Tables.
 
 (* whatever strict mode accepts, tolerant mode parses to the identical tree, no errors *)
@@ -23,3 +23,33 @@ Theorem C13_smart_neutral : forall cfg toks,
   parse_tokens (set_smart cfg true) toks = parse_tokens (set_smart cfg false) toks.
 Proof. exact smart_neutral. Qed.
 Print Assumptions C13_smart_neutral.
+
+(* MODE GRAMMARS: what the two optional modes accept *)
+
+(* the parser in the given modes, without interceptors or registered operators *)
+Definition cfg_modes (smart tolerant : bool) : pcfg := mkpcfg tolerant smart [] [] [] [] [].
+
+(* COMPLETENESS of the parser in every mode combination w.r.t. the mode grammar of
+   GrammarModes.v: smart semicolons = a '(' or '[' at the start of a line does not continue an
+   expression and a statement may end in front of it exactly as if a ';' preceded it;
+   tolerant = two statements on one line without separator and blocks left open at the end
+   of the input are accepted; every complete statement is kept: the parser returns exactly
+   the grammar's tree, every statement of it, without error. *)
+Theorem C13_modes_complete : forall smart tolerant p toks,
+  m_programM smart tolerant p toks = true -> wf_program p = true ->
+  exists r, parse_tokens (cfg_modes smart tolerant) toks = Some r /\
+            pr_program r = p /\ pr_errors r = [] /\ pr_err_returned r = false.
+Proof. exact modes_complete. Qed.
+Print Assumptions C13_modes_complete.
+
+(* with both modes off the mode grammar is the grammar of C02 *)
+Theorem C13_modes_off : forall p toks, m_programM false false p toks = m_program p toks.
+Proof. exact modes_off. Qed.
+Print Assumptions C13_modes_off.
+
+(* the modes only add programs: every program of the strict grammar is a program of the
+   tolerant grammar with the same tree (smart on or off) *)
+Theorem C13_tolerant_contains_strict : forall smart p toks,
+  m_programM smart false p toks = true -> m_programM smart true p toks = true.
+Proof. exact tolerant_contains_strict. Qed.
+Print Assumptions C13_tolerant_contains_strict.
